@@ -310,11 +310,11 @@ def impl_read_many(ctx, jobs):
             o = json.loads(row)
             if o["err"]:
                 kind = "panic" if o["err"].startswith(("panic", "read: panic")) else "hang" if o["err"] == "hang" else "mlr_error"
-                res.append((kind, None, o["err"].encode()))
+                res.append((kind, None, re.sub(r"/\S*verif-c01-\S*/in", "(input)", o["err"]).encode()))
             else:
                 res.append(("ok", [[(bytes.fromhex(k), bytes.fromhex(v)) for k, v in r] for r in o["recs"]], b""))
         return res
-    n = 4
+    n = 2
     parts = [jobs[i::n] for i in range(n)]
     with ThreadPoolExecutor(max_workers=n) as ex:
         outs = list(ex.map(chunk, parts))
@@ -328,7 +328,7 @@ def impl_read_many(ctx, jobs):
 def cli_crosscheck(ctx, rjobs, n):
     """the same reads through the real command line (mlr --iF ... --ojsonl --jvquoteall): must equal the in-process route"""
     idx = sorted(ctx.rng.sample(range(len(rjobs)), min(n, len(rjobs))))
-    with ThreadPoolExecutor(max_workers=6) as ex:
+    with ThreadPoolExecutor(max_workers=2) as ex:
         res = list(ex.map(lambda i: impl_read(ctx, rjobs[i]["args"], rjobs[i]["text"]), idx))
     diff = timeouts = 0
     for i, (kind, recs, err) in zip(idx, res):
@@ -496,7 +496,7 @@ def coq_records(recs):
     return "[" + ";\n  ".join(coq_record(r) for r in recs) + "]"
 
 
-def coq_eval2(ctx, name, terms, shard, timeout=1500, workers=10):
+def coq_eval2(ctx, name, terms, shard, timeout=3000, workers=2):
     """one coqc per shard evaluating BOTH `mismatches chk` and `mismatches compared` (own variant of vlib.coq_eval_mismatches:
     two results per run, bounded parallelism).  Returns (bad indices, not-compared indices, error text)."""
     GEN.mkdir(exist_ok=True)
@@ -567,7 +567,7 @@ def run(ctx):
                        "go-csv behaviour after a quoting error inside a record is not modelled (cases skipped and counted)",
                        "comma/IFS bytes below 0x80"]
     forbidden_gate(ctx, ["Base", "C01"])
-    ok, why = check_props(ctx, "C01/Props.v", ["C01/Harness.vo", "C01/ProofsDkvp.vo", "C01/ProofsTsv.vo", "C01/ProofsCsv.vo"])
+    ok, why = check_props(ctx, "C01/Props.v", ["C01/Harness.vo", "C01/ProofsDkvp.vo", "C01/ProofsTsv.vo", "C01/ProofsCsv.vo", "C01/ProofsCsv2.vo"])
 
     # ---- generate and run the writers
     per_fmt = {"tsv": 200, "csv": 260, "dkvp": 140, "nidx": 80} if quick else {"tsv": 4000, "csv": 5000, "dkvp": 3000, "nidx": 1500}
@@ -629,7 +629,7 @@ def run(ctx):
     bad, cerr = [], ""
     if ok:
         with ctx.timed("coq_cases"):
-            bad, skipped, cerr = coq_eval2(ctx, "C01", terms, shard=200)
+            bad, skipped, cerr = coq_eval2(ctx, "C01", terms, shard=len(terms) // 2 + 1)   # two coqc processes
         ctx.cov["correspondence"] = {"cases": len(terms), "mismatches": len(bad), "csv_read_cases_not_compared(model: quoting error)": len(skipped)}
         if cerr:
             ctx.violation({"broken": "correspondence-evaluation", "detail": cerr[-2000:]}, found_input=False)
